@@ -294,6 +294,7 @@ func (bf *buffer) Read(p []byte) (int, error) {
 			verifYield(75)
 			if bf.isDone() {
 				verifYield(76)
+				bf.ccond.L.Unlock()
 				return 0, io.EOF
 			}
 
@@ -365,6 +366,7 @@ func (bf *buffer) ReadPeek(n int) ([]byte, error) {
 		verifYield(84)
 		if bf.isDone() {
 			verifYield(85)
+			bf.ccond.L.Unlock()
 			return nil, io.EOF
 		}
 
@@ -438,6 +440,7 @@ func (bf *buffer) ReadWait(n int) ([]byte, error) {
 		verifYield(94)
 		if bf.isDone() {
 			verifYield(95)
+			bf.ccond.L.Unlock()
 			return nil, io.EOF
 		}
 
@@ -612,6 +615,7 @@ func (bf *buffer) waitForWriteSpace(n int) (int64, int, error) {
 			verifYield(34)
 			if bf.isDone() {
 				verifYield(35)
+				bf.pcond.L.Unlock()
 				return 0, 0, io.EOF
 			}
 
